@@ -408,6 +408,7 @@ impl<'a, 'b> TagBlock<'a, 'b> {
 
             // Tags are potentially `{% endtag %}`
             if element.as_rule() == Rule::Tag {
+                let trims_left = element.as_str().trim_start().starts_with("{%-");
                 let mut tag = element
                     .into_inner()
                     .next()
@@ -428,6 +429,14 @@ impl<'a, 'b> TagBlock<'a, 'b> {
                             let output = match end_pos {
                                 Some(end_pos) => start_pos.span(&end_pos).as_str(),
                                 None => "",
+                            };
+                            // Whitespace before `{%- endtag %}` normally belongs to the end
+                            // tag itself, unless a tag-like token of the content already
+                            // claimed it (`{% raw %}{{ x -}} {%- endraw %}`).
+                            let output = if trims_left {
+                                output.trim_end_matches([' ', '\t', '\n', '\r'])
+                            } else {
+                                output
                             };
 
                             return Ok(output);
